@@ -65,3 +65,27 @@ Example C01_nonvacuous :
   mk_iset [5000; 0; 2000; 9000; 9000] [9000; 2000; 3000; 9000; 12000] = [(0, 1000); (2000, 3000); (5000, 8000); (9000, 12000)]
   /\ pairs_ordered [5000; 0; 2000; 9000; 9000] [9000; 2000; 3000; 9000; 12000].
 Proof. split; [vm_compute; reflexivity|]. unfold pairs_ordered; simpl. repeat constructor; simpl; lia. Qed.
+
+(* ====================================================================================================
+   The constructor is idempotent: building an IntervalSet from the start / end columns of an IntervalSet (what
+   IntervalSet(ep), ep[:] , save + load and every set operation's re-entry do) returns the same intervals; in
+   particular the public results of union / intersect / set_diff are fixed points of the constructor. *)
+Theorem C01_idempotent : forall ss es, length ss = length es ->
+  mk_iset_pairs (mk_iset ss es) = mk_iset ss es.
+Proof. intros ss es Hl. apply mk_iset_canonical_id. apply mk_iset_canonical. exact Hl. Qed.
+Print Assumptions C01_idempotent.
+
+Theorem C01_ops_fixed_points : forall A B,
+  mk_iset_pairs (iset_inter A B) = iset_inter A B
+  /\ mk_iset_pairs (iset_union A B) = iset_union A B
+  /\ mk_iset_pairs (iset_diff A B) = iset_diff A B.
+Proof.
+  intros A B. destruct (ops_canonical A B) as (H1 & H2 & H3).
+  repeat split; apply mk_iset_canonical_id; assumption.
+Qed.
+Print Assumptions C01_ops_fixed_points.
+
+Example C01_idempotent_nonvacuous :
+  mk_iset [0; 5000; 20000] [10000; 15000; 20000] = [(0, 15000)]
+  /\ mk_iset_pairs (mk_iset [0; 5000; 20000] [10000; 15000; 20000]) = [(0, 15000)].
+Proof. vm_compute. split; reflexivity. Qed.
